@@ -251,3 +251,12 @@ contract(VAR + '.render', variant='C04.fmt.multi-line.html_quote', params=dict(s
          pre_hook=_fmt_mod_state('multi-line', ['html_quote']), exit_hook=_render_exit,
          uses=[GI + '#tainted', HAS, 'DocumentTemplate.ustr.ustr#bytes_or_str'])
 COMPOSE.append(VAR + '.render#C04.fmt.multi-line.html_quote')
+
+# fmt=html-quote followed by a modifier (round-5 seed C04-5): the deprecated format leaves a tainted value tainted, so the
+# modifiers after it still see the mark -- html_quote escapes once (not twice), url_unquote re-marks what it decodes
+for _names in (('html_quote',), ('url_unquote',), ('url_unquote_plus',)):
+    _tag = 'C04.fmt.html-quote.' + '.'.join(_names)
+    contract(VAR + '.render', variant=_tag, params=dict(self=NoneV(), md=TD()),
+             pre_hook=_fmt_mod_state('html-quote', list(_names)), exit_hook=_render_exit,
+             uses=[GI + '#tainted', HAS, 'DocumentTemplate.ustr.ustr#bytes_or_str'])
+    COMPOSE.append(VAR + '.render#' + _tag)
